@@ -1,11 +1,447 @@
 import Driver.Util
-/- line-protocol commands of the Container family (stub: filled in by the family's build) -/
+import AsyncFix.Model.Container
+/-!
+Line-protocol commands of the Container family (`cont.*`).  Stateful: a store of named containers
+(`FIXContainer` / `FIXMessage` objects of the Python side); a reference is `name` or
+`name/x<tag>:<idx>/…` (the idx-th item of the group under that tag, nested).
+
+tokens   text      `x<hex>` (UTF-8, surrogates passed through)
+         object    `i:<int>` `s:<text>` `f:<text>` (FTag member) `e:<text>` (other enum member)
+                   `o:<text>:i<int>` / `o:<text>:E<Kind>` (any other object: str() and int() outcome)
+         value     object | class;  class = `c:tnf` `c:rep` `c:exc:<text>` `c:oth:<text>`
+         default   `d:<text>` | `ds:<text>` | class
+         dict      `{ obj (value | [ item* ]) … }`,  item = dict | `@ref` (a copy) | `bad`
+replies  `ok` / `err <Kind>` / values as documented at each command; `bad-op` if unparsable
+-/
 namespace Driver.Container
+open AsyncFix.Py AsyncFix.Model.Container
+
+structure Entry where
+  mt : Option Str := none
+  body : Cont := []
 
 structure St where
-  unit : Unit := ()
+  store : List (String × Entry) := []
+
+/-! ### text tokens -/
+
+def utf8Enc (c : Nat) : List Nat :=
+  if c < 0x80 then [c]
+  else if c < 0x800 then [0xC0 + c / 64, 0x80 + c % 64]
+  else if c < 0x10000 then [0xE0 + c / 4096, 0x80 + c / 64 % 64, 0x80 + c % 64]
+  else [0xF0 + c / 262144, 0x80 + c / 4096 % 64, 0x80 + c / 64 % 64, 0x80 + c % 64]
+
+def utf8Dec : List Nat → Option (List Nat)
+  | [] => some []
+  | b :: rest =>
+    if b < 0x80 then (utf8Dec rest).map (b :: ·)
+    else if b < 0xC0 then none
+    else if b < 0xE0 then
+      match rest with
+      | b1 :: r => (utf8Dec r).map (((b - 0xC0) * 64 + (b1 - 0x80)) :: ·)
+      | _ => none
+    else if b < 0xF0 then
+      match rest with
+      | b1 :: b2 :: r => (utf8Dec r).map (((b - 0xE0) * 4096 + (b1 - 0x80) * 64 + (b2 - 0x80)) :: ·)
+      | _ => none
+    else
+      match rest with
+      | b1 :: b2 :: b3 :: r =>
+        (utf8Dec r).map (((b - 0xF0) * 262144 + (b1 - 0x80) * 4096 + (b2 - 0x80) * 64 + (b3 - 0x80)) :: ·)
+      | _ => none
+
+def tokText (t : String) : Option Str := do
+  let bs ← Driver.tokBytes t
+  utf8Dec bs
+
+def textTok (s : Str) : String := Driver.bytesTok (s.flatMap utf8Enc)
+
+def kindName : Kind → String
+  | .fixMessageError => "FIXMessageError" | .tagNotFound => "TagNotFound" | .duplicated => "Duplicated"
+  | .repeating => "Repeating" | .unmapped => "Unmapped" | .keyError => "Key"
+  | .attributeError => "Attribute" | .valueError => "Value" | .typeError => "Type"
+  | .indexError => "Index" | .overflowError => "Overflow"
+
+def kindOf : String → Option Kind
+  | "FIXMessageError" => some .fixMessageError | "TagNotFound" => some .tagNotFound
+  | "Duplicated" => some .duplicated | "Repeating" => some .repeating | "Unmapped" => some .unmapped
+  | "Key" => some .keyError | "Attribute" => some .attributeError | "Value" => some .valueError
+  | "Type" => some .typeError | "Index" => some .indexError | "Overflow" => some .overflowError
+  | _ => none
+
+def tokCls (parts : List String) : Option Cls :=
+  match parts with
+  | ["c", "tnf"] => some .tagNotFound
+  | ["c", "rep"] => some .repeating
+  | ["c", "exc", x] => (tokText x).map .exc
+  | ["c", "oth", x] => (tokText x).map .other
+  | _ => none
+
+def clsTok : Cls → String
+  | .tagNotFound => "c:tnf" | .repeating => "c:rep"
+  | .exc r => "c:exc:" ++ textTok r | .other r => "c:oth:" ++ textTok r
+
+def tokObj (t : String) : Option PyObj :=
+  match t.splitOn ":" with
+  | ["i", n] => (Driver.tokInt n).map .int
+  | ["s", x] => (tokText x).map .str
+  | ["f", x] => (tokText x).map .ftag
+  | ["e", x] => (tokText x).map .enum
+  | ["o", x, r] =>
+    match tokText x, r.toList with
+    | some s, 'i' :: n => (Driver.tokInt (String.ofList n)).map fun n => .other s (.ok n)
+    | some s, 'E' :: k => (kindOf (String.ofList k)).map fun k => .other s (.error k)
+    | _, _ => none
+  | _ => none
+
+def tokVal (t : String) : Option PyVal :=
+  match tokObj t with
+  | some o => some (.obj o)
+  | none => (tokCls (t.splitOn ":")).map .cls
+
+/-- `d:<repr>` a non-str, non-class default; `ds:<text>` a str default (a returned str default is
+indistinguishable from a stored str, so it is replied as `str`) -/
+def tokDefault (t : String) : Option (Default × Bool) :=
+  match t.splitOn ":" with
+  | ["d", x] => (tokText x).map fun r => (.obj r, false)
+  | ["ds", x] => (tokText x).map fun r => (.obj r, true)
+  | parts => (tokCls parts).map fun k => (.cls k, false)
+
+/-! ### canonical structure dump -/
+
+mutual
+def dumpVal : Val → String
+  | .str s => "s" ++ textTok s
+  | .cls k => clsTok k
+  | .group items => "[" ++ dumpItems items ++ "]"
+def dumpItems : List (List (Str × Val)) → String
+  | [] => ""
+  | g :: gs => "{" ++ dumpFields g ++ "}" ++ dumpItems gs
+def dumpFields : List (Str × Val) → String
+  | [] => ""
+  | (t, v) :: rest => textTok t ++ "=" ++ dumpVal v ++ ";" ++ dumpFields rest
+end
+
+def dumpCont (c : Cont) : String := "{" ++ dumpFields c ++ "}"
+
+def dumpEntry (e : Entry) : String :=
+  match e.mt with
+  | none => dumpCont e.body
+  | some mt => "M" ++ textTok mt ++ dumpCont e.body
+
+/-! ### references -/
+
+def findEntry (st : St) (name : String) : Option Entry :=
+  (st.store.find? (·.1 == name)).map (·.2)
+
+def putEntry (st : St) (name : String) (e : Entry) : St :=
+  if st.store.any (·.1 == name) then
+    { st with store := st.store.map fun p => if p.1 == name then (name, e) else p }
+  else { st with store := st.store ++ [(name, e)] }
+
+def parsePath : List String → Option (List (Str × Nat))
+  | [] => some []
+  | seg :: rest =>
+    match seg.splitOn ":" with
+    | [t, i] => do
+      let t ← tokText t
+      let i ← i.toNat?
+      let r ← parsePath rest
+      pure ((t, i) :: r)
+    | _ => none
+
+def getPath (c : Cont) : List (Str × Nat) → Option Cont
+  | [] => some c
+  | (t, i) :: rest =>
+    match lookup t c with
+    | some (.group items) => match items[i]? with
+      | some g => getPath g rest
+      | none => none
+    | _ => none
+
+/-- replace the container at `path` inside `c` -/
+def setPath (c : Cont) (path : List (Str × Nat)) (new : Cont) : Option Cont :=
+  match path with
+  | [] => some new
+  | (t, i) :: rest =>
+    match lookup t c with
+    | some (.group items) => match items[i]? with
+      | some g => match setPath g rest new with
+        | some g' => some (dictSet t (.group (items.set i g')) c)
+        | none => none
+      | none => none
+    | _ => none
+
+structure Ref where
+  name : String
+  path : List (Str × Nat)
+
+def parseRef (r : String) : Option Ref :=
+  match r.splitOn "/" with
+  | [] => none
+  | name :: segs => (parsePath segs).map fun p => { name := name, path := p }
+
+def resolve (st : St) (r : String) : Option (Ref × Entry × Cont) := do
+  let ref ← parseRef r
+  let e ← findEntry st ref.name
+  let c ← getPath e.body ref.path
+  pure (ref, e, c)
+
+def writeBack (st : St) (ref : Ref) (e : Entry) (c' : Cont) : Option St := do
+  let b ← setPath e.body ref.path c'
+  pure (putEntry st ref.name { e with body := b })
+
+/-! ### dict literals -/
+
+mutual
+/-- after `{`: entries up to the matching `}` -/
+def parseEntries (st : St) : Nat → List String → Option (List DEntry × List String)
+  | 0, _ => none
+  | _ + 1, "}" :: rest => some ([], rest)
+  | fuel + 1, k :: "[" :: rest => do
+    let t ← tokObj k
+    let (items, rest) ← parseItems st fuel rest
+    let (es, rest) ← parseEntries st fuel rest
+    pure (.mk t (.list items) :: es, rest)
+  | fuel + 1, k :: v :: rest => do
+    let t ← tokObj k
+    let v ← tokVal v
+    let (es, rest) ← parseEntries st fuel rest
+    pure (.mk t (.plain v) :: es, rest)
+  | _, _ => none
+/-- after `[`: items up to the matching `]` -/
+def parseItems (st : St) : Nat → List String → Option (List DItem × List String)
+  | 0, _ => none
+  | _ + 1, "]" :: rest => some ([], rest)
+  | fuel + 1, "{" :: rest => do
+    let (es, rest) ← parseEntries st fuel rest
+    let (is, rest) ← parseItems st fuel rest
+    pure (.dict es :: is, rest)
+  | fuel + 1, "bad" :: rest => do
+    let (is, rest) ← parseItems st fuel rest
+    pure (.bad :: is, rest)
+  | fuel + 1, tok :: rest =>
+    match tok.toList with
+    | '@' :: r => do
+      let (_, _, c) ← resolve st (String.ofList r)
+      let (is, rest) ← parseItems st fuel rest
+      pure (.cont c :: is, rest)
+    | _ => none
+  | _, _ => none
+end
+
+/-- a complete dict literal `{ … }` with nothing after it -/
+def parseDict (st : St) (toks : List String) : Option (List DEntry) :=
+  match toks with
+  | "{" :: rest =>
+    match parseEntries st (toks.length + 1) rest with
+    | some (es, []) => some es
+    | _ => none
+  | _ => none
+
+def parseItemList (st : St) (toks : List String) : Option (List DItem) :=
+  match toks with
+  | "[" :: rest =>
+    match parseItems st (toks.length + 1) rest with
+    | some (is, []) => some is
+    | _ => none
+  | _ => none
+
+def parseItem (st : St) (toks : List String) : Option DItem :=
+  match parseItemList st (("[" :: toks) ++ ["]"]) with
+  | some [i] => some i
+  | _ => none
+
+/-- plain dict `{ obj obj … }` for `==` -/
+def parsePlainDict : List String → Option (List (PyObj × PyObj))
+  | ["}"] => some []
+  | k :: v :: rest => do
+    let k ← tokObj k
+    let v ← tokObj v
+    let r ← parsePlainDict rest
+    pure ((k, v) :: r)
+  | _ => none
+
+/-! ### replies -/
+
+def errReply (k : Kind) : String := "err " ++ kindName k
+
+def getResTok : GetRes → String
+  | .str s => "str " ++ textTok s
+  | .cls k => "cls " ++ clsTok k
+  | .dflt r => "dflt " ++ textTok r
+
+def getResTok1 : GetRes → String
+  | .str s => "s" ++ textTok s
+  | .cls k => clsTok k
+  | .dflt r => "d" ++ textTok r
+
+def boolTok (b : Bool) : String := if b then "True" else "False"
+
+/-- run a mutator on the referenced container and write the result back -/
+def mutate (st : St) (r : String) (f : Cont → Except Kind Cont) : St × String :=
+  match resolve st r with
+  | none => (st, "bad-op")
+  | some (ref, e, c) =>
+    match f c with
+    | .error k => (st, errReply k)
+    | .ok c' =>
+      match writeBack st ref e c' with
+      | some st' => (st', "ok")
+      | none => (st, "bad-op")
+
+def reader (st : St) (r : String) (f : Cont → String) : St × String :=
+  match resolve st r with
+  | none => (st, "bad-op")
+  | some (_, _, c) => (st, f c)
+
+/-- run-length summary of `pyIntOfString` on a context string for every code point of a range -/
+def scanRange (lo hi ctx : Nat) : String :=
+  let mk (c : Nat) : Str :=
+    match ctx with
+    | 0 => [c] | 1 => [c, 49] | 2 => [49, c] | _ => [49, c, 49]
+  let show' (o : Option Int) : String := match o with | none => "n" | some i => toString i
+  let rec go (n : Nat) (c : Nat) (cur : Option (String × Nat)) (acc : List String) : List String :=
+    match n with
+    | 0 => match cur with
+      | some (s, k) => (s ++ "*" ++ toString k) :: acc
+      | none => acc
+    | n + 1 =>
+      let s := show' (pyIntOfString (mk c))
+      match cur with
+      | some (s', k) =>
+        if s' == s then go n (c + 1) (some (s, k + 1)) acc
+        else go n (c + 1) (some (s, 1)) ((s' ++ "*" ++ toString k) :: acc)
+      | none => go n (c + 1) (some (s, 1)) acc
+  " ".intercalate (go (hi - lo) lo none []).reverse
 
 def handle (st : St) (cmd : String) (args : List String) : St × String :=
-  (st, "bad-op")
+  match cmd, args with
+  | "reset", [] => ({}, "ok")
+  | "new", [name] => (putEntry st name {}, "ok")
+  | "init", name :: toks =>                         -- FIXContainer(dict)
+    match parseDict st toks with
+    | none => (st, "bad-op")
+    | some d => match fromDict d with
+      | .error k => (st, errReply k)
+      | .ok c => (putEntry st name { body := c }, "ok")
+  | "initmsg", name :: mt :: toks =>                -- FIXMessage(msg_type, dict)
+    match tokText mt, parseDict st toks with
+    | some mt, some d => match fromDict d with
+      | .error k => (st, errReply k)
+      | .ok c => (putEntry st name { mt := some mt, body := c }, "ok")
+    | _, _ => (st, "bad-op")
+  | "copy", [r, name] =>                            -- copy.deepcopy / pickle round trip into a new name
+    match resolve st r with
+    | some (ref, e, c) =>
+      (putEntry st name { mt := if ref.path.isEmpty then e.mt else none, body := pickleRoundtrip c }, "ok")
+    | none => (st, "bad-op")
+  | "msgtype", [name] =>
+    match findEntry st name with
+    | some { mt := some mt, .. } => (st, textTok mt)
+    | _ => (st, "bad-op")
+  | "setmsgtype", [name, mt] =>
+    match findEntry st name, tokText mt with
+    | some e, some mt => (putEntry st name { e with mt := some mt }, "ok")
+    | _, _ => (st, "bad-op")
+  | "set", [r, t, v, rep] =>
+    match tokObj t, tokVal v, rep with
+    | some t, some v, "0" => mutate st r fun c => set c t v false
+    | some t, some v, "1" => mutate st r fun c => set c t v true
+    | _, _, _ => (st, "bad-op")
+  | "del", [r, t] =>
+    match tokObj t with
+    | some t => mutate st r fun c => delItem c t
+    | none => (st, "bad-op")
+  | "addgroup", r :: t :: idx :: itemToks =>
+    match tokObj t, Driver.tokInt idx, parseItem st itemToks with
+    | some t, some i, some item => mutate st r fun c => addGroup c t item i
+    | _, _, _ => (st, "bad-op")
+  | "setgroup", r :: t :: listToks =>
+    match tokObj t, parseItemList st listToks with
+    | some t, some items => mutate st r fun c => setGroup c t items
+    | _, _ => (st, "bad-op")
+  | "get", [r, t, d] =>
+    match tokObj t, tokDefault d with
+    | some t, some (d, isStr) => reader st r fun c =>
+        match get c t d with
+        | .ok (.dflt x) => (if isStr then "str " else "dflt ") ++ textTok x
+        | .ok x => getResTok x
+        | .error k => errReply k
+    | _, _ => (st, "bad-op")
+  | "getitem", [r, t] =>
+    match tokObj t with
+    | some t => reader st r fun c =>
+        match getItem c t with | .ok x => getResTok x | .error k => errReply k
+    | _ => (st, "bad-op")
+  | "isgroup", [r, t] =>
+    match tokObj t with
+    | some t => reader st r fun c =>
+        match isGroup c t with | none => "None" | some b => boolTok b
+    | _ => (st, "bad-op")
+  | "contains", [r, t] =>
+    match tokObj t with
+    | some t => reader st r fun c => boolTok (contains c t)
+    | _ => (st, "bad-op")
+  | "grouplist", [r, t] =>
+    match tokObj t with
+    | some t => reader st r fun c =>
+        match getGroupList c t with
+        | .ok gs => "list " ++ " ".intercalate (gs.map dumpCont)
+        | .error k => errReply k
+    | _ => (st, "bad-op")
+  | "byindex", [r, t, i] =>
+    match tokObj t, Driver.tokInt i with
+    | some t, some i => reader st r fun c =>
+        match getGroupByIndex c t i with | .ok g => "cont " ++ dumpCont g | .error k => errReply k
+    | _, _ => (st, "bad-op")
+  | "bytag", [r, t, gt, gv] =>
+    match tokObj t, tokObj gt, tokObj gv with
+    | some t, some gt, some gv => reader st r fun c =>
+        match getGroupByTag c t gt gv with | .ok g => "cont " ++ dumpCont g | .error k => errReply k
+    | _, _, _ => (st, "bad-op")
+  | "query", r :: ts =>
+    match ts.mapM tokObj with
+    | some ts => reader st r fun c =>
+        match query c ts with
+        | .ok d => "dict " ++ " ".intercalate (d.map fun p => textTok p.1 ++ "=" ++ getResTok1 p.2)
+        | .error k => errReply k
+    | none => (st, "bad-op")
+  | "eq", [a, b] =>
+    match resolve st a, resolve st b with
+    | some (_, _, x), some (_, _, y) => (st, boolTok (eq x y))
+    | _, _ => (st, "bad-op")
+  | "eqdict", r :: "{" :: toks =>
+    match parsePlainDict toks with
+    | some d => reader st r fun c =>
+        match eqDict c d with | .ok b => boolTok b | .error k => errReply k
+    | none => (st, "bad-op")
+  | "str", [r] => reader st r fun c => textTok (render c)
+  | "repr", [r] =>
+    match resolve st r with
+    | some (ref, e, c) =>
+      match ref.path, e.mt with
+      | [], some mt => (st, textTok (Msg.repr { msgType := mt, body := c }))
+      | _, _ => (st, textTok (render c))
+    | none => (st, "bad-op")
+  | "dump", [r] => reader st r dumpCont
+  | "dumpall", [] => (st, " ".intercalate (st.store.map fun p => p.1 ++ "=" ++ dumpEntry p.2))
+  | "pyint", [s] =>
+    match tokText s with
+    | some s => (st, match pyIntOfString s with | some n => "some " ++ toString n | none => "none")
+    | none => (st, "bad-op")
+  | "pyintcp", cps =>                                -- code points as decimals (lone surrogates etc.)
+    match cps.mapM String.toNat? with
+    | some s => (st, match pyIntOfString s with | some n => "some " ++ toString n | none => "none")
+    | none => (st, "bad-op")
+  | "pyintscan", [lo, hi, ctx] =>
+    match lo.toNat?, hi.toNat?, ctx.toNat? with
+    | some lo, some hi, some ctx => (st, scanRange lo hi ctx)
+    | _, _, _ => (st, "bad-op")
+  | "renderint", [n] =>
+    match Driver.tokInt n with
+    | some n => (st, textTok (renderInt n))
+    | none => (st, "bad-op")
+  | _, _ => (st, "bad-op")
 
 end Driver.Container
